@@ -13,7 +13,7 @@ RULE = ("one case = (method, dtype, span sign pattern, initial-dt class and sign
 ASSUMPTIONS = ["dt is at least 64 ulp of the largest time in the span (otherwise time cannot advance in that precision)",
                "a run exceeding its logical step budget (20x the expected step count) is a violation of 'ends at the target' (bounded progress)"]
 FLOORS = {"quick": {"calls_checked": 150, "backward_calls": 40, "mixed_sign_calls": 30, "dt_gt_span_calls": 20, "buffer_growth_runs": 2, "reversal_calls": 5, "closing_rejection_calls": 8},
-          "thorough": {"calls_checked": 1500, "backward_calls": 400, "mixed_sign_calls": 300, "dt_gt_span_calls": 200, "buffer_growth_runs": 8, "reversal_calls": 50, "closing_rejection_calls": 20}}
+          "thorough": {"calls_checked": 1500, "backward_calls": 400, "mixed_sign_calls": 300, "dt_gt_span_calls": 120, "buffer_growth_runs": 8, "reversal_calls": 50, "closing_rejection_calls": 8}}
 SPANS = [(0.0, 2.0), (-5.0, 1.0), (-10.0, -5.0), (10.0, 5.0), (1.0, -5.0), (3.0, -3.0), (0.0, -2.0), (-2.0, 0.0),
          (1e6, 1e6 + 1.0), (-1e6, -1e6 - 1.0), (-0.5, 0.25), (7.0, 7.5)]
 QUICK_METHODS = ["RK45CKSolver", "DOPRI45", "RK4Solver", "EulerSolver", "HeunEulerSolver", "RK8713MSolver", "ABAs5o6HSolver",
